@@ -94,7 +94,7 @@ func findWorkers(c *Check) []Worker {
 func checkC13(c *Check) {
 	c.Explanation = "Blocking-operation rule: in the cone of each of the three pipeline workers (and every goroutine they spawn) every channel send, receive, blocking select and blocking library call is an obligation that must match an accepted cancellation idiom tied to the worker's context; contexts are threaded unchanged (no Background/TODO in the cone). This is a necessary condition for each blocking state named in the property (pipe not yet opened, idle pipe, unready correlator, full downstream buffer); together with the library contracts it is what makes a bound on the stopping time exist. The numeric bound itself is not decided."
 	c.Rule("worker-discovery: closures passed to (*errgroup.Group).Go in package cmd that call Ingest/Read (floor 3)")
-	c.Rule("blocking-site: every send / receive / blocking select / call of a blocking external in the worker's cone matches idiom (a) select with <-ctx.Done() case that cannot loop back; (b) single send into a channel made with capacity>=1 by a once-spawned goroutine; (d) bare <-ctx.Done(); (e) blocking open in a spawned goroutine whose completion channel is awaited in an idiom-(a) select; (f) blocking read on a file that a sibling goroutine closes on ctx.Done(), the read error ending the loop; (h) mutex acquisition where no holder blocks (C03 S6 / health map methods)")
+	c.Rule("blocking-site: every send / receive / blocking select / call of a blocking external in the worker's cone matches idiom (a) select with <-ctx.Done() case that cannot loop back; (b) single send into a channel made with capacity>=1 by a once-spawned goroutine; (d) bare <-ctx.Done(); (e) blocking open in a spawned goroutine whose completion channel is awaited in an idiom-(a) select; (f) blocking read on a file that a sibling goroutine closes on ctx.Done(), the read error ending the loop; (h) mutex acquisition where no holder blocks (C03 S6 / health map methods); (i) library retry loop whose policy is bound to the worker context or a constant attempt limit; (j) http.Server.Shutdown with the worker context or a deadline context; (k) polling loop (non-blocking receive in a loop) that checks the worker context on every cycle; deferred WaitGroup/errgroup waits are blocking sites; goroutine bodies may be closures or named functions started with go")
 	c.Rule("ctx-threading: every context argument passed or stored in the cone derives from a context parameter, a context field whose stores all do, or errgroup.WithContext/NotifyContext; never Background/TODO")
 	c.Trust("closing an *os.File opened on a FIFO unblocks a pending Read (runtime poller)", "bufio.Reader.ReadString returns the read error once the file is closed", "errgroup cancels the group context on the first non-nil worker result", "go-libaudit Reassembler methods do not block indefinitely (they take a short internal lock and invoke callbacks)")
 	c.Assume("dependency code only calls repository functions it was handed (callback bridging in the cone construction)")
